@@ -194,6 +194,108 @@ def check_positions(snap, b, originals):
     return None
 
 
+_STD_CLASSES: dict = {}
+
+
+def _std_class(kind):
+    """a node class with one comparable and one non-comparable property of a standard-library scalar type, and a
+    child (classes are created once per kind: the serializer compiles code per class)"""
+    import dataclasses as _dc
+    import datetime as _dt
+    import decimal
+    import fractions
+    import uuid
+    from typing import Optional as _Opt
+    ty = {"naive-datetime": _dt.datetime, "aware-datetime": _dt.datetime, "utc-datetime": _dt.datetime, "date": _dt.date,
+          "time": _dt.time, "aware-time": _dt.time, "timedelta": _dt.timedelta, "decimal": decimal.Decimal, "uuid": uuid.UUID,
+          "fraction": fractions.Fraction, "bytes": bytes}[kind]
+    if ty not in _STD_CLASSES:
+        name = "Std_" + ty.__name__
+        ns = {"__annotations__": {"x": ty, "kid": _Opt[zoo.Expr], "y": _Opt[ty]},
+              "kid": None, "y": _dc.field(default=None, compare=False), "__module__": __name__}
+        _STD_CLASSES[ty] = _dc.dataclass(frozen=True)(type(name, (zoo.Expr,), ns))
+    return _STD_CLASSES[ty]
+
+
+def _std_value(rng, kind):
+    import datetime as _dt
+    import decimal
+    import fractions
+    import uuid
+    us = rng.choice([0, 1, 250000, 999999, rng.randrange(10 ** 6)])
+    if kind.endswith("datetime"):
+        base = _dt.datetime(rng.choice([1, 1970, 2024, 9999]), rng.randint(1, 12), rng.randint(1, 28), rng.randint(0, 23),
+                            rng.randint(0, 59), rng.randint(0, 59), us)
+        if kind == "naive-datetime":
+            return base
+        if kind == "utc-datetime":
+            return base.replace(tzinfo=_dt.timezone.utc)
+        return base.replace(tzinfo=_dt.timezone(_dt.timedelta(minutes=rng.choice([120, -90, 330, 1, -719, 0]))))
+    if kind == "date":
+        return _dt.date(rng.choice([1, 1970, 2024, 9999]), rng.randint(1, 12), rng.randint(1, 28))
+    if kind == "time":
+        return _dt.time(rng.randint(0, 23), rng.randint(0, 59), rng.randint(0, 59), rng.choice([us, rng.randrange(10000, 100000)]))
+    if kind == "aware-time":
+        return _dt.time(rng.randint(0, 23), rng.randint(0, 59), rng.randint(0, 59), us,
+                        tzinfo=_dt.timezone(_dt.timedelta(minutes=rng.choice([120, -90, 330, 0]))))
+    if kind == "timedelta":
+        return _dt.timedelta(days=rng.randint(-400, 400), seconds=rng.randint(0, 86399), microseconds=us)
+    if kind == "decimal":
+        return decimal.Decimal(rng.choice(["1.10", "0", "-0.000", "1E+3", "12345678901234567890.123456789", str(rng.randrange(10 ** 9))]))
+    if kind == "uuid":
+        return uuid.UUID(int=rng.getrandbits(128))
+    if kind == "fraction":
+        return fractions.Fraction(rng.randint(-50, 50), rng.randint(1, 60))
+    return bytes(rng.randrange(256) for _ in range(rng.randint(0, 9)))
+
+
+STD_KINDS = ["naive-datetime", "aware-datetime", "utc-datetime", "date", "time", "aware-time", "timedelta", "decimal", "uuid", "fraction", "bytes"]
+
+
+def stdlib_scalar_cases(rng, n):
+    """property values of the standard-library scalar types the serializer supports out of the box (timestamps with
+    and without a zone, dates, times, durations, decimals, UUIDs, fractions, bytes): through every format the new node
+    has the same class, id, content_id and a value that is equal, of the same type and -- for timestamps -- with the
+    same zone information (naive stays naive, the offset stays the offset)"""
+    i = 0
+    for _ in range(n):
+        for kind in STD_KINDS:
+            for fmt in FORMATS:
+                i += 1
+                gc.collect()
+                cls = _std_class(kind)
+                v, w = _std_value(rng, kind), _std_value(rng, kind)
+                kid = zoo.Leaf(v=rng.randrange(10 ** 6)) if rng.random() < 0.5 else None
+                fail = None
+                try:
+                    n0 = cls(x=v, kid=kid, y=w)
+                    want = (n0.id, n0.content_id)
+                    payload = serialize(n0, fmt, None)
+                    n0.detach()
+                    b = deserialize(cls, fmt, payload)
+                    if b is n0:
+                        fail = "the detached original was returned"
+                    elif type(b) is not cls or (b.id, b.content_id) != want:
+                        fail = f"class / id / content_id changed: {type(b).__name__} {b.id} {b.content_id} vs {want}"
+                    else:
+                        for nm, orig in (("x", v), ("y", w)):
+                            got = getattr(b, nm)
+                            same = type(got) is type(orig) and got == orig and repr(got) == repr(orig)
+                            if hasattr(orig, "utcoffset"):
+                                same = same and (got.tzinfo is None) == (orig.tzinfo is None) and got.utcoffset() == orig.utcoffset()
+                            if not same:
+                                fail = f"property {nm}: {got!r} != {orig!r}"
+                                break
+                        if fail is None and b != n0:
+                            fail = "result != original"
+                    b.detach()
+                    del b, n0
+                except Exception as e:  # noqa
+                    fail = f"round trip raised {type(e).__name__}: {e}"[:200]
+                yield Case(f"roundtrip:std-scalar:{kind}", None, None, True, f"{kind} x={v!r} y={w!r} format={fmt}",
+                           oracle_fail=fail, sig=f"roundtrip|std-scalar|{kind}|{fmt}")
+
+
 def twin_order_cases(rng, n):
     """two distinct but equal nodes inside ONE tree (ids `h` and `h_1`), in either order of appearance, alone or below
     other nodes, round-tripped after the originals left the registry: every position gets back its own id, the two stay
@@ -240,6 +342,7 @@ def twin_order_cases(rng, n):
 
 def cases(rng: random.Random, tier: str):
     yield from twin_order_cases(rng, 12 if tier == "quick" else 200)
+    yield from stdlib_scalar_cases(rng, 3 if tier == "quick" else 40)
     n = 60 if tier == "quick" else 1500
     fresh_items, fresh_desc = [], []
     for _ in range(n):
